@@ -77,27 +77,25 @@ class Observed:
     pass
 
 
-def observe(B, case):
+def observe(B, case, extras=None):
+    """extras: optional function (B, case) -> list of MX read-back expressions that are
+    evaluated together with the NLP (ob.extra_f)"""
     import casadi as ca
     opti = transcribe(B)
     ob = Observed()
     ob.opti = opti
-    p = opti.p
     qs = quantities(B, case)
     ob.qnames = [(n, e.shape) for n, e in qs]
     stack = ca.veccat(*[e for _, e in qs]) if qs else ca.MX(0, 1)
-    # decision symbols: those of the NLP (opti.x lists only variables that occur in f or g)
-    # together with those the read-back mentions
-    psyms = set(str(s) for s in ca.symvar(p)) if p.numel() else set()
-    seen, syms = set(), []
-    for s in ca.symvar(ca.veccat(opti.x, stack, opti.f, opti.g)):
-        n = str(s)
-        if n in psyms or n in seen:
-            continue
-        seen.add(n)
-        syms.append(s)
+    ex = list(extras(B, case)) if extras else []
+    everything = ca.veccat(opti.x, opti.p, stack, opti.f, opti.g, opti.lbg, opti.ubg, *ex)
+    adv = opti.advanced
+    # opti.x / opti.p list only symbols that occur in f or g: collect all that are read
+    syms = adv.symvar(everything, ca.OPTI_VAR)
+    pars = adv.symvar(everything, ca.OPTI_PAR)
     x = ca.vvcat(syms) if syms else ca.MX(0, 1)
-    ob.x = x
+    p = ca.vvcat(pars) if pars else ca.MX(0, 1)
+    ob.x, ob.p = x, p
     ob.nx, ob.np = x.numel(), p.numel()
     ob.pval = np.array(opti.debug.value(p)).reshape(-1) if ob.np else np.zeros(0)
     ob.Phi = ca.Function("Phi", [x, p], [stack])
@@ -117,6 +115,7 @@ def observe(B, case):
             raise Mismatch("decision quantities (%d) and NLP variables (%d) differ in number"
                            % (stack.numel(), ob.nx))
     ob.nlp = ca.Function("nlp", [x, p], [opti.f, opti.g, opti.lbg, opti.ubg])
+    ob.extra_f = ca.Function("extra", [x, p], ex) if ex else None
     ob.x0 = np.array(opti.debug.value(x, opti.initial())).reshape(-1) if ob.nx else np.zeros(0)
     return ob
 
